@@ -188,13 +188,13 @@ func (p *Pkg) orderTable() (v *types.Var, groups [][]string, lit ast.Expr, err e
 // kvm (v3)
 
 type KvmModel struct {
-	Fn      *ast.FuncDecl
-	Type    *types.Named
-	Flag    map[string]*types.Var // label -> flag field
-	Default *ast.CaseClause
+	Fn       *ast.FuncDecl
+	Type     *types.Named
+	Flag     map[string]*types.Var // label -> flag field
+	Default  *ast.CaseClause
 	Problems []string
-	DupOK   bool
-	DupWhy  string
+	DupOK    bool
+	DupWhy   string
 }
 
 // kvmModel finds the method Set(abv string) error on a struct of bool flags.
@@ -751,7 +751,7 @@ func (w *World) rulesVocab(out *[]Obligation) {
 			if !om.Mandatory {
 				add(m.List[0] == ov.ND, "R06.nd", "Set["+m.Label+"]", m.Arm,
 					fmt.Sprintf("code 0 (an omitted metric) is %q, the version's not-defined token", m.List[0]),
-					)
+				)
 				if m.List[0] != ov.ND {
 					(*out)[len(*out)-1].Detail = fmt.Sprintf("code 0 of optional metric %s is %q: a vector that omits it reads back %q instead of %q", m.Label, m.List[0], m.List[0], ov.ND)
 				}
